@@ -538,10 +538,16 @@ def ob_kill_wipe():
             for rel in ('meson-private/coredata.dat', 'build.ninja', 'meson-info/intro-targets.json', 'meson-logs/meson-log.txt', '.gitignore', '.hgignore', 'CACHEDIR.TAG'):
                 with open(os.path.join(bld, rel), 'w') as f: f.write('x')
             step = [0]; kill_at = sym_int('kill_at', 1, 40); log = []
+            # two ways to die: SIGKILL - nothing runs any more, so every later mutating call of the dying process (a `finally:` clause being unwound) dies too -
+            # and SIGINT - KeyboardInterrupt at that point, the `finally:` clauses DO run
+            hard = choose(2, 'SIGKILL (else SIGINT)') == 1
+            dead = [False]
 
             def tick(what):
+                if dead[0] and hard: raise Killed(what)
                 step[0] += 1; log.append(what)
-                if step[0] <= 40 and decide(eq(kill_at, step[0])): raise Killed(what)
+                if not dead[0] and step[0] <= 40 and decide(eq(kill_at, step[0])):
+                    dead[0] = True; raise Killed(what)
 
             def wrap(mod, name, what):
                 real = getattr(mod, name)
@@ -576,7 +582,7 @@ def ob_kill_wipe():
                 cover('killed')
             observe('steps', n_steps)
             # ---- recovery: the same command again, no kill
-            kill_at = 10 ** 6; step[0] = 10 ** 3
+            kill_at = 10 ** 6; step[0] = 10 ** 3; dead[0] = False; hard = False
             try:
                 o2 = wipe_cmd()
             except (M.ME, SystemExit):
@@ -604,7 +610,7 @@ def obligations(tier):
     for c in ('configure', 'reconfigure', 'first-setup'):
         out.append(Obligation('kill[%s]' % c, ob_kill(c), dict(command=c, kill_step='symbolic 1..60 (every step of the command)', interrupted_write='every prefix'),
                               labels=('killed', 'completed', 'loaded') + (('regenerated',) if c == 'first-setup' else ()), optional_labels=('regenerated',), max_paths=200000, path_timeout=120))
-    out.append(Obligation('kill[wipe]', ob_kill_wipe(), dict(real='msetup.MesonApp.__init__ (validate_dirs, backup, read_cmd_line_file, removal, add_ignore_files, restore) on a scratch directory', kill_step='symbolic 1..40 (every mutating call)',
+    out.append(Obligation('kill[wipe]', ob_kill_wipe(), dict(real='msetup.MesonApp.__init__ (validate_dirs, backup, read_cmd_line_file, removal, add_ignore_files, restore) on a scratch directory', kill_step='symbolic 1..40 (every mutating call)', kill_kind='SIGKILL (nothing runs afterwards) | SIGINT (finally clauses run)',
                           recovery='the same command again'), labels=('killed', 'completed'), classify=classify_wipe, max_paths=100000, path_timeout=120))
     out.append(Obligation('failed-reconfigure', ob_failed_reconfigure(), dict(earlier_successful_saves='0..3', rollback='the except-branch of MesonApp._generate, mirrored'), labels=('first-setup', 'rolled-back')))
     out.append(Obligation('setup-command', ob_setup_command(), dict(real='msetup.MesonApp._generate', recorded='Interpreter, Build, build.save, backend, cmdline.*, mintro, os.replace/unlink/path.exists', failing_stage=STAGES, first_invocation='symbolic', prev_exists='symbolic'), labels=('completed', 'failed-before-dump', 'rolled-back')))
